@@ -309,6 +309,20 @@ def rule_rd_decode(cx, rep, port):
             opts = d.args[1] if len(d.args) > 1 and isinstance(d.args[1], ast.Dict) else None
             od = {k.value: v for k, v in zip(opts.keys, opts.values)} if opts is not None else {}
             rep.decide('stream' in od and is_true(od['stream']), 'decode stream flag: ' + node_text(d), d, 'decode(chunk, {stream: true})', 'a chunk is decoded without {stream: true}: a multi-byte character split between two chunks is rejected as invalid UTF-8')
+        # a streaming decode keeps an incomplete trailing sequence inside the decoder: outside the chunk handler (whose
+        # end-of-stream counterpart flushes) it must be followed by a flush in the same function, or that sequence is never reported
+        chunk_home = p.func('rbql_csv', 'CSVRecordIterator.process_data_stream_chunk')
+        for d in chunk_decs:
+            opts = d.args[1] if len(d.args) > 1 and isinstance(d.args[1], ast.Dict) else None
+            od = {k.value: v for k, v in zip(opts.keys, opts.values)} if opts is not None else {}
+            home = enclosing_func(d)
+            if home is chunk_home or not ('stream' in od and is_true(od['stream'])):
+                continue
+            g = cfgmod.CFG(home)
+            dn = [n for n in g.nodes if cfgmod.node_contains(n, lambda x, d=d: x is d)]
+            is_flush = lambda n: cfgmod.node_contains(n, lambda x: isinstance(x, ast.Call) and (dotted(x.func) or '') == 'self.decoder.decode' and (not x.args or not any(isinstance(a, ast.Dict) and any(getattr(k, 'value', None) == 'stream' and is_true(v) for k, v in zip(a.keys, a.values)) for a in x.args[1:])) and x is not d)  # noqa: E731
+            unflushed = any(g.exists_path(n, lambda x: x is g.exit, avoid=is_flush, edge_ok=NORMAL) for n in dn)
+            rep.decide(not unflushed, 'one-shot decode in ' + home.name, d, 'streaming decode is flushed before the function ends', '{}() decodes its complete input with {{stream: true}} and never flushes the decoder: a truncated multi-byte character at the end of the data is swallowed instead of raising the decoding error'.format(home.name))
         end = p.func('rbql_csv', 'CSVRecordIterator.process_data_stream_end')
         fl = [f for f in flushes if enclosing_func(f) is end]
         rep.decide(bool(fl), 'final flush', fl[0] if fl else end, 'the decoder is flushed at end of stream', 'the decoder is never flushed at end of stream: an incomplete trailing character goes unnoticed')
@@ -515,6 +529,7 @@ def rule_rd_bom(cx, rep, port):
             if is_name(v, line):
                 continue
             cut = None
+            min_len = []
             if isinstance(v, ast.Subscript) and is_name(v.value, line) and isinstance(v.slice, ast.Slice) and isinstance(v.slice.lower, ast.Constant) and v.slice.upper is None:
                 cut = v.slice.lower.value
             if isinstance(v, ast.Call) and isinstance(v.func, ast.Attribute) and v.func.attr in ('substring', 'slice', 'substr') and is_name(v.func.value, line) and len(v.args) == 1 and isinstance(v.args[0], ast.Constant):
@@ -522,6 +537,19 @@ def rule_rd_bom(cx, rep, port):
             encs, bom_units = set(), []
             for atom, pol in pathsem.atoms(q.conds):
                 atom = Fold().visit(atom)
+                # length guard in front of the BOM test: the shortest line it lets through
+                if isinstance(atom, ast.Compare) and len(atom.ops) == 1 and isinstance(atom.comparators[0], ast.Constant) and isinstance(atom.comparators[0].value, int) and not isinstance(atom.comparators[0].value, bool):
+                    l0 = atom.left
+                    is_len = (isinstance(l0, ast.Call) and dotted(l0.func) == 'len' and l0.args and is_name(l0.args[0], line)) or (isinstance(l0, ast.Attribute) and l0.attr == 'length' and is_name(l0.value, line))
+                    if is_len:
+                        k = atom.comparators[0].value
+                        op = type(atom.ops[0])
+                        if not pol:
+                            op = {ast.Lt: ast.GtE, ast.LtE: ast.Gt, ast.Gt: ast.LtE, ast.GtE: ast.Lt, ast.Eq: ast.NotEq, ast.NotEq: ast.Eq}.get(op, op)
+                        shortest = {ast.GtE: k, ast.Gt: k + 1, ast.Eq: k}.get(op)
+                        if shortest is not None:
+                            min_len.append((shortest, q.node))
+                        continue
                 if not pol or not isinstance(atom, ast.Compare) or len(atom.ops) != 1 or not isinstance(atom.ops[0], (ast.Eq, ast.Is)):
                     continue
                 l_, r_ = atom.left, atom.comparators[0]
@@ -536,6 +564,10 @@ def rule_rd_bom(cx, rep, port):
                 continue     # infeasible: the encoding cannot equal two different constants
             for e_ in encs:
                 found.setdefault(e_, []).append((cut, bom_units, q.node))
+                if cut is not None:
+                    for shortest, nd in min_len:
+                        if shortest > cut:
+                            problems.append((e_, shortest, cut, nd))
         for encn, want_units in (('utf-8', [0xFEFF]), ('latin-1' if port == 'py' else 'binary', [0xEF, 0xBB, 0xBF])):
             arms_ = found.get(encn)
             if not arms_:
@@ -543,6 +575,8 @@ def rule_rd_bom(cx, rep, port):
                 continue
             bad = [(cut, units, node) for cut, units, node in arms_ if not (cut == len(want_units) and units == want_units)]
             rep.decide(not bad, 'BOM arm ' + encn, arms_[0][2], 'removes exactly the {} BOM code unit(s) after testing for them'.format(len(want_units)), 'the {} BOM arm removes {} unit(s) after testing {} (must test {} and remove exactly {})'.format(encn, bad[0][0] if bad else '', [hex(u) for u in bad[0][1]] if bad else '', [hex(u) for u in want_units], len(want_units)))
+        for e_, shortest, cut, nd in problems[:1]:
+            rep.violated('BOM length guard ' + str(e_), nd, 'the {} BOM is removed only from lines of at least {} code units although the BOM has {}: a first line that consists of the BOM alone keeps it (the header / first field then carries the BOM and no warning is given)'.format(e_, shortest, cut))
     last = fd.body[-1]
     rep.decide(isinstance(last, ast.Return) and is_name(last.value, line), 'no BOM', last, 'a line without BOM is returned unchanged', 'a line without BOM is not returned unchanged')
     # caller: guarded by first physical line, sets the flag iff the line changed
